@@ -562,7 +562,7 @@ func genPersist(forC12 bool) func(t *rapid.T) pcCase {
 				c.MaxSize = 8 * c.Big
 			}
 		}
-		if !forC12 && c.Type == "bytes" && c.Big == 0 && rapid.IntRange(0, 9).Draw(t, "hugeClass") == 0 {
+		if !forC12 && c.Type == "bytes" && c.Big == 0 && rapid.IntRange(0, verifkit.Scale(9, 79)).Draw(t, "hugeClass") == 0 {
 			c.Huge = rapid.IntRange(1, 2).Draw(t, "huge")
 			if c.MaxSize < 20 {
 				c.MaxSize = 20
